@@ -47,6 +47,7 @@ instance : Transc Float where
   ltb := fun a b => a < b
   leb := fun a b => a <= b
   eqb := fun a b => a == b
+  ofInt := Float.ofInt
 
 abbrev Num := Number Float
 
